@@ -155,6 +155,7 @@ def record_call_node_steps(mod):
 # ------------------------------------------------------------------ _get_call_node
 SUBSET = "call_node2task_hashes[call_node.call_hash] <= scheduler_task_hashes"
 OWN = "call_node.task_hash in call_node2task_hashes[call_node.call_hash]"
+OWN_PARAM = "task_hash in call_node2task_hashes[call_node.call_hash]"
 
 
 def get_call_node_own(mod):
@@ -169,7 +170,11 @@ def get_call_node_own(mod):
     cond = lc.generators[0].ifs[0]
     if _n(cond) == SUBSET:
         own = False
-    elif isinstance(cond, ast.BoolOp) and isinstance(cond.op, ast.And) and sorted(_n(v) for v in cond.values) == sorted([SUBSET, OWN]):
+    elif isinstance(cond, ast.BoolOp) and isinstance(cond.op, ast.And) and \
+            sorted(_n(v) for v in cond.values) in (sorted([SUBSET, OWN]), sorted([SUBSET, OWN_PARAM])):
+        # `task_hash` (the parameter) is the call node's task hash: the query filters on it
+        if "filter_by(task_hash=task_hash, args_hash=args_hash)" not in _n(fn):
+            fail("_get_call_node: call nodes are not filtered by task_hash=task_hash", fn)
         own = True
     else:
         fail(f"_get_call_node: unrecognised currentness condition `{_n(cond)}`", cond)
@@ -292,7 +297,14 @@ def variant_of(x):
         return "shipped"
     if x["steps"] == FIXED_STEPS and x["own"] and x["hit"]:
         return "fixed"
+    if x["steps"] == SHIPPED_STEPS and x["own"] and x["hit"]:
+        return "mixed"
     return "other"
+
+
+def pin_variant(v):
+    """which of the per-variant pins (record_call_node's helpers) applies"""
+    return "fixed" if v == "fixed" else "shipped"
 
 
 def check_pins(x, pins):
@@ -300,7 +312,7 @@ def check_pins(x, pins):
     for k, got in x["pins"].items():
         exp = pins.get(k)
         if isinstance(exp, dict):
-            exp = exp.get(v if v != "other" else "shipped")
+            exp = exp.get(pin_variant(v))
         if k == "db._record_arg_values" and v != "fixed":
             continue
         if got != exp:
@@ -309,7 +321,7 @@ def check_pins(x, pins):
 
 def emit(x, prop: str) -> str:
     v = variant_of(x)
-    target = "fixed" if v == "fixed" else "shipped"
+    target = v if v in ("fixed", "mixed") else "shipped"
     b = lambda t: "true" if t else "false"
     return f"""(* generated by translate/tr_record.py from redun/backends/db/__init__.py, redun/scheduler.py,
    redun/backends/db/serializers.py -- do not edit *)
